@@ -27,13 +27,14 @@ NUMKEYS = ["id", "cport", "sport", "port", "cbytes", "sbytes", "bytes"]
 NUMVARS = ["id", "cport", "sport", "cbytes", "sbytes"]
 HOSTS4 = ["1.2.3.4", "1.2.3.5", "1.2.4.4", "10.0.0.1", "10.1.2.3", "192.168.0.1"]
 HOSTS6 = ["::1", "fe80::1", "fe80::2", "2001:db8::1", "2001:db8:1::1"]
-MASKS = ["", "", "", "/8", "/16", "/24", "/31", "/32", "/-8", "/-1", "/0", "/64", "/128", "/-64", "/16/-8"]
+MASKS = ["", "", "", "/8", "/16", "/24", "/31", "/32", "/-8", "/-1", "/0", "/64", "/128", "/-64", "/16/-8",
+         "/20", "/12", "/27", "/-12", "/-3", "/9", "/61", "/-61", "/100", "/-20", "/12/-4", "/1"]
 TAGKEYS = ["tag", "service", "mark", "generated"]
 TAGS = ["a", "b", "c"]
 PROTOS = ["tcp", "udp", "sctp", "other"]
-DURS = ["5m", "1h", "30s", "1h30m", "0s", "1ms", "2h"]
+DURS = ["5m", "1h", "30s", "1h30m", "0s", "1ms", "2h", "1.5s", "500ms", "250us", ".5h", "2m3.25s"]
 ABST = ['2024-01-02 1504', '2024-01-02 150405', '2030-06-01 0000', '2024-01-02 1505']
-REGEX = ["x", "y", "z", "foo", "a b", "x+", "[0-9]"]
+REGEX = ["x", "y", "z", "foo", "a b", "x+", "[0-9]", 'say "hi"', "a=b:c"]
 CONVS = ["", "", "", "", ".b64", ".gz"]
 SUBS = ["a", "b"]
 
@@ -132,15 +133,18 @@ def g_proto(rng, vars_ok, sub_ok):
 
 def g_tag(rng):
     n = 1 if rng.random() < 0.75 else 2
-    return rng.choice(TAGKEYS[:2] if rng.random() < 0.8 else TAGKEYS) + ":" + ",".join(rng.choice(TAGS) for _ in range(n))
+    k = rng.choice(TAGKEYS[:2] if rng.random() < 0.8 else TAGKEYS)
+    if n == 2 and rng.random() < 0.2:
+        return k + ':"' + rng.choice(TAGS) + " , " + rng.choice(TAGS) + '"'
+    return k + ":" + ",".join(rng.choice(TAGS) for _ in range(n))
 
 
 def g_data(rng):
     key = rng.choice(["cdata", "sdata", "data", "cdata", "sdata"])
     rx = rng.choice(REGEX[:4] if rng.random() < 0.8 else REGEX)
     conv = rng.choice(CONVS)
-    if " " in rx or rng.random() < 0.3:
-        return key + conv + ':"' + rx + '"'
+    if " " in rx or '"' in rx or rng.random() < 0.3:
+        return key + conv + ':"' + rx.replace('"', '""') + '"'
     return key + conv + ":" + rx
 
 
@@ -375,15 +379,197 @@ def max_cost(e):
     return worst[0]
 
 
+# ------------------------------------------------------------------ the text as written: the checker's own value parser
+# The oracle never takes a parsed value from the code under test: what a filter text means (lists, ranges, +- parts,
+# variables, /n host masks for both address families, durations, absolute times, both directions of data:) is computed
+# here, from the text the generator wrote. The Go harness only adds what needs the run-time context (distance of an
+# absolute time to the query's reference time, ids of payload elements).
+import base64
+import ipaddress
+import re as _re
+
+_UNIT_NS = {"ns": 1, "us": 1000, "\u00b5s": 1000, "\u03bcs": 1000, "ms": 10 ** 6, "s": 10 ** 9, "m": 60 * 10 ** 9, "h": 3600 * 10 ** 9}
+_DUR = _re.compile(r"(\d+\.\d+|\.?\d+)(ns|us|\u00b5s|\u03bcs|ms|s|m|h)")
+_VAR = _re.compile(r"@(?:([a-z0-9]+):)?([a-z0-9]+)@", _re.I)
+
+
+def _b64(bs):
+    return base64.b64encode(bytes(bs)).decode()
+
+
+def spec_mask(nbits_list, width):
+    """prefix lengths: /n keeps the first n bits, /-n the last n bits; several suffixes add up"""
+    bits = [0] * width
+    for n in nbits_list:
+        if n > 0:
+            for i in range(min(n, width)):
+                bits[i] ^= 1
+        elif n < 0:
+            for i in range(width - min(-n, width), width):
+                bits[i] ^= 1
+    out = []
+    for i in range(0, width, 8):
+        b = 0
+        for j in range(8):
+            b = (b << 1) | bits[i + j]
+        out.append(b)
+    return out
+
+
+def _split_top(text, sep):
+    """split at sep outside of @...@ variables"""
+    out, cur, invar = [], "", False
+    for ch in text:
+        if ch == "@":
+            invar = not invar
+        if ch == sep and not invar:
+            out.append(cur)
+            cur = ""
+        else:
+            cur += ch
+    out.append(cur)
+    return out
+
+
+def _split_sub(t):
+    sub = ""
+    m = _re.match(r"@([a-z0-9]+):", t, _re.I)
+    if m:
+        sub, t = m.group(1), t[m.end():]
+    return sub, t
+
+
+def _value(v):
+    if len(v) >= 2 and v.startswith('"') and v.endswith('"'):
+        return v[1:-1].replace('""', '"')
+    return v
+
+
+def _parts(text, time_):
+    """+- sum of numbers / durations / absolute times / variables -> list of parts"""
+    parts, i = [], 0
+    while i < len(text):
+        j = i
+        while j < len(text) and text[j] in "+-":
+            j += 1
+        neg = text[i:j].count("-") % 2 == 1
+        rest = text[j:]
+        m = _VAR.match(rest)
+        if m:
+            parts.append({"neg": neg, "isvar": True, "num": 0, "vsub": m.group(1) or "", "vname": m.group(2)})
+            i = j + m.end()
+            continue
+        if time_:
+            m = _re.match(r"(\d{4})-(\d\d)-(\d\d) +(\d\d)(\d\d)(\d\d)?", rest)
+            if m:
+                parts.append({"neg": neg, "isvar": False, "isabs": True, "num": 0, "vsub": "", "vname": "",
+                              "abst": [int(m.group(1)), int(m.group(2)), int(m.group(3)), int(m.group(4)), int(m.group(5)), int(m.group(6) or 0)]})
+                i = j + m.end()
+                continue
+            ns, k = 0, 0
+            while True:
+                m = _DUR.match(rest, k)
+                if not m:
+                    break
+                num = m.group(1)
+                unit = _UNIT_NS[m.group(2)]
+                if "." in num:
+                    a, b = num.split(".")
+                    ns += int(a or "0") * unit + (int(b) * unit) // (10 ** len(b))
+                else:
+                    ns += int(num) * unit
+                k = m.end()
+            if k == 0:
+                raise ValueError("time part: " + rest)
+            parts.append({"neg": neg, "isvar": False, "num": ns, "vsub": "", "vname": ""})
+            i = j + k
+            continue
+        m = _re.match(r"\d+", rest)
+        if not m:
+            raise ValueError("number part: " + rest)
+        parts.append({"neg": neg, "isvar": False, "num": int(m.group(0)), "vsub": "", "vname": ""})
+        i = j + m.end()
+    return parts
+
+
+def spec_atom(text):
+    """-> spec of one filter text (same JSON shape as the harness' neutral tree)"""
+    sub, t = _split_sub(text)
+    m = _re.match(r"([a-z]+)(?:\.([^:=]+))?[:=](.*)$", t, _re.I | _re.S)
+    if not m:
+        raise ValueError(text)
+    key, conv, val = m.group(1).lower(), m.group(2) or "", _value(m.group(3))
+    if key in ("sort", "limit", "group"):
+        return {"op": "skip"}
+    a = {"key": key, "sub": sub}
+    if key in ("tag", "service", "mark", "generated"):
+        a.update(kind="tag", tags=[key + "/" + x.strip() for x in val.split(",")])
+    elif key == "protocol":
+        items = []
+        for x in val.split(","):
+            x = x.strip()
+            m = _VAR.fullmatch(x)
+            if m:
+                items.append({"isvar": True, "tok": 0, "vsub": m.group(1) or ""})
+            else:
+                items.append({"isvar": False, "tok": {"other": 0, "tcp": 1, "udp": 2, "sctp": 3}[x.lower()], "vsub": ""})
+        a.update(kind="proto", protos=items)
+    elif key in ("chost", "shost", "host"):
+        items = []
+        for x in val.split(","):
+            x = x.strip()
+            segs = x.split("/")
+            masks = [int(z) for z in segs[1:]]
+            m4 = spec_mask(masks, 32) if masks else [255] * 4
+            m6 = spec_mask(masks, 128) if masks else [255] * 16
+            m = _VAR.fullmatch(segs[0])
+            if m:
+                items.append({"isvar": True, "ip": None, "vsub": m.group(1) or "", "vname": m.group(2).lower(), "m4": _b64(m4), "m6": _b64(m6)})
+            else:
+                items.append({"isvar": False, "ip": _b64(ipaddress.ip_address(segs[0]).packed), "vsub": "", "vname": "", "m4": _b64(m4), "m6": _b64(m6)})
+        a.update(kind="host", hosts=items)
+    elif key in ("id", "cport", "sport", "port", "cbytes", "sbytes", "bytes", "ftime", "ltime", "time"):
+        time_ = key.endswith("time")
+        ranges = []
+        for item in val.split(","):
+            bounds = _split_top(item, ":")
+            if len(bounds) > 2:
+                raise ValueError("range: " + item)
+            ranges.append([{"parts": _parts(b.strip(), time_)} for b in bounds])
+        a.update(kind="time" if time_ else "num", ranges=ranges)
+    elif key in ("cdata", "sdata", "data"):
+        a.update(kind="data", regex=val, conv=conv)
+    else:
+        raise ValueError("key " + key)
+    return {"op": "atom", "atom": a}
+
+
+def spec_tree(e):
+    """spec of a generator tree"""
+    if e[0] == "atom":
+        return spec_atom(e[1])
+    if e[0] == "not":
+        return {"op": "not", "kids": [spec_tree(e[1])]}
+    return {"op": e[0], "kids": [spec_tree(c) for c in e[1]]}
+
+
 # ------------------------------------------------------------------ execution
-def run_cases(texts, tag, seed, nvals, exe, keep_vals=False, hang_ms=8000):
-    """-> (results by index, model lines by index, note)"""
+def tree_spec(tr):
+    try:
+        return spec_tree(tr) if tr is not None else None
+    except Exception:
+        return None
+
+
+def run_cases(texts, tag, seed, nvals, exe, keep_vals=False, hang_ms=8000, specs=None):
+    """-> (results by index, model lines by index, note). specs[i]: the checker's own reading of texts[i] (or None)"""
     d = os.path.join(BUILD, "run", "c03")
     os.makedirs(d, exist_ok=True)
     cf = os.path.join(d, "cases_%s.txt" % tag)
     with open(cf, "w") as f:
-        for t in texts:
-            f.write(json.dumps(t) + "\n")
+        for i, t in enumerate(texts):
+            sp = specs[i] if specs else None
+            f.write(json.dumps(t if sp is None else {"q": t, "spec": sp}) + "\n")
     ov = go_overlay(HARNESS, "c03")
     results, mlines, note = {}, {}, ""
     skip = 0
@@ -439,6 +625,8 @@ def classify(r, m, have_model):
         return "impl", "panic: " + r["panic"]
     if "impl" not in r:
         return None, "rejected" if (r.get("err") or r.get("derr")) else "unsupported"
+    if r.get("specnote"):
+        return "impl", "term translation: " + r["specnote"]
     if r.get("wf", True) and r["impl"] != r["sem"]:
         return "impl", "normal form and text as written disagree on %d of %d valuations" % (
             sum(a != b for a, b in zip(r["impl"], r["sem"])), len(r["sem"]))
@@ -450,15 +638,15 @@ def classify(r, m, have_model):
         if m is None:
             return "model", "model produced no line"
         # m = [sem, seml, evalnorm, impossible, fuel, wf]
-        if m[0] != r["sem"]:
-            return "model", "model sem differs from the Go oracle sem"
+        if m[0] != r.get("semd", r["sem"]):
+            return "model", "model sem differs from the Go oracle sem (both on the dumped tree)"
         if m[2] != r["impl"]:
             return "model", "model normal form evaluates differently from the implementation's"
-        if m[1] != r["seml"]:
+        if m[1] != r.get("semld", r["seml"]):
             return "model", "model semL differs from the Go semL"
         if (m[3] == "1") != bool(r["impossible"]):
             return "model", "model and implementation disagree on 'matches nothing'"
-        if len(m) > 5 and (m[5] == "1") != bool(r.get("wf", True)):
+        if len(m) > 5 and (m[5] == "1") != bool(r.get("wfd", r.get("wf", True))):
             return "model", "model and harness disagree on the unambiguous fragment (wf_seq)"
         if len(m) > 4 and m[4] != "fuel_ok":
             return "model", "model normalisation ran out of fuel / reached a panic branch: " + m[4]
@@ -475,7 +663,7 @@ def minimise(tree, seed, nvals, exe, have_model, kind):
         if not cands:
             break
         texts = [render(c) for c in cands]
-        res, ml, _ = run_cases(texts, "min", seed, nvals, exe)
+        res, ml, _ = run_cases(texts, "min", seed, nvals, exe, specs=[tree_spec(c) for c in cands])
         nxt = None
         for i, c in enumerate(cands):
             k, _ = classify(res.get(i), ml.get(i), have_model)
@@ -508,17 +696,28 @@ def main(tier, seed, replay=None):
     nvals = 48 if tier == "quick" else 96
     trees, texts, regimes = [], [], []
     cdir = os.path.join(ROOT, "corpus", PROP)
+    def untuple(t):
+        """generator trees from JSON: lists -> tuples for atoms/not, lists of kids stay lists"""
+        if t is None:
+            return None
+        if t[0] == "atom":
+            return ("atom", t[1])
+        if t[0] == "not":
+            return ("not", untuple(t[1]))
+        return (t[0], [untuple(c) for c in t[1]])
     if replay:
         obj = json.load(open(replay))
         texts = [obj["query"]]
-        trees = [None]
+        trees = [untuple(obj.get("tree"))]
         regimes = ["replay"]
     else:
         if os.path.isdir(cdir):
             for fn in sorted(os.listdir(cdir)):
                 if fn.endswith(".json"):
-                    texts.append(json.load(open(os.path.join(cdir, fn)))["query"])
-                    trees.append(None)
+                    co = json.load(open(os.path.join(cdir, fn)))
+                    tr = untuple(co.get("tree"))
+                    texts.append(co["query"] if "query" in co else render(tr))
+                    trees.append(tr)
                     regimes.append("corpus")
         for i in range(ncases):
             x, acc = rng.random(), 0.0
@@ -539,7 +738,8 @@ def main(tier, seed, replay=None):
             trees.append(tr)
             texts.append(render(tr, rng))
             regimes.append(reg)
-    res, ml, note = run_cases(texts, "main", seed, nvals, exe, keep_vals=bool(replay))
+    specs = [tree_spec(tr) for tr in trees]
+    res, ml, note = run_cases(texts, "main", seed, nvals, exe, keep_vals=bool(replay), specs=specs)
     nviol = 0
     stats = {"ok": 0, "rejected": 0, "unsupported": 0, "gap_differs": 0, "gap_agrees": 0}
     gap_examples = []
@@ -580,9 +780,9 @@ def main(tier, seed, replay=None):
         if tr is not None:
             tr = minimise(tr, seed, nvals, exe, have_model, k)
             text = render(tr)
-        r1, m1, _ = run_cases([text], "rep", seed, nvals, exe, keep_vals=True)
+        r1, m1, _ = run_cases([text], "rep", seed, nvals, exe, keep_vals=True, specs=[tree_spec(tr)])
         r = r1.get(0) or {}
-        obj = {"property": PROP, "kind": k, "why": why, "query": text, "original_query": texts[i],
+        obj = {"property": PROP, "kind": k, "why": why, "query": text, "tree": tr, "original_query": texts[i],
                "normal_form": r.get("norm"), "impl": r.get("impl"), "spec_sem": r.get("sem"),
                "model": m1.get(0), "semL": r.get("seml"), "seed": seed, "nvals": nvals,
                "first_differing_valuation": None, "replay_cmd": "bin/check C03 --replay <this file>"}
@@ -629,6 +829,7 @@ def main(tier, seed, replay=None):
         "cases": total, "accepted": stats.get("ok", 0), "rejected_by_parse": stats.get("rejected", 0), "outside_fragment": stats.get("unsupported", 0),
         "per_regime_accepted": per_regime,
         "model_in_loop": bool(have_model),
+        "cases_with_own_reading_of_the_text": sum(1 for sp in specs if sp is not None),
         "lookahead_reading_differs_cases": seml_diff,
         "outside_unambiguous_fragment": {"cases": stats["gap_differs"] + stats["gap_agrees"], "normal_form_differs_from_reference_reading": stats["gap_differs"],
                                          "note": "a NOT whose operand contains NOT/THEN and that is followed by THEN: meaning not defined by the documentation, not judged (notes/C03.md)",
